@@ -12,7 +12,7 @@ import traceback
 
 from vlib import core
 
-MODULES = ["gen_enums", "gen_groups", "gen_change_status", "gen_const", "gen_schema"]
+MODULES = ["gen_enums", "gen_groups", "gen_change_status", "gen_const", "gen_schema", "gen_lex", "gen_order", "gen_session"]
 
 
 def main():
